@@ -58,6 +58,31 @@ NOTES = {
              'configurations whose first signature is <= 70 bytes (selection only, verdicts stay with the reference)',
     'c18_4': '**missed at first**: nothing was called after a call that failed; C18 got the differential sub-space afterfail (c2 '
              'after a failed c1 must answer what c2 answers on a fresh object; repair of the command list)',
+    'c02_5': '**missed at first**: C02 histories held no private keys on the object, so nothing the object re-signs itself was '
+             'explored; C02 got the live-object history search (vf/txhist.py) with verify() == reference verdict and "what the '
+             'library just re-signed verifies"',
+    'c04_5': '**missed at first**: C04 imported private keys as int/hex/bytes only; WIF forms through Key() and HDKey() were added',
+    'c07_5': '**missed at first**: funded outputs never shared a transaction and requests were single; C07 got paired funding '
+             'outputs and the request send_twice (a second request judged against the ledger after the first broadcast)',
+    'c08_5': '**missed at first**: multisig transactions spent outputs of one key only; C08 got multisig configurations funded on two keys',
+    'c09_5': '**missed at first**: a callee emptying the list it was given; C09 keeps the path list, compares it after the call and '
+             'asks the same list again',
+    'c10_5': '**missed at first**: r starting with byte 0x30 makes the 64-byte r||s form of a dictionary export look like DER; C02 and '
+             'C10 select such signatures by scanning (selection only)',
+    'c11_5': '**missed at first**: only ASCII symbols were substituted; C11 got the sub-space unicode (every code point a standard '
+             'transform maps onto ASCII, at every position; characters strip() removes)',
+    'c13_5': '**missed at first**: signer options were enumerated one at a time; C13 got their full product (sign_opts) and signer '
+             'call histories (sign_hist)',
+    'c15_5': '**missed at first**: every passphrase was unmistakably text; C15 got passphrases shaped like hex, numbers, WIF, padded, '
+             'empty, as str and bytes, at every entry point',
+    'c16_5': '**missed at first**: every public view was called with one spelling of its arguments; C16 got the sub-space hdargs (every '
+             'argument form: str/list/tuple paths, flag spellings, positional/keyword) - exposed a genuine defect (bare M), repaired',
+    'c17_5': '**missed at first**: only value_sat and str() were observed; C17 got every documented output form with every parameter '
+             'value (views) - exposed a genuine defect (str_auto of zero), repaired',
+    'c18_5': '**missed at first**: wire primitives were only given bytes; C18 got varstr of texts (ASCII, Latin-1, beyond) judged by '
+             'framing',
+    'c20_5': '**missed at first**: getbalance was only asked for one address; C20 got address lists cut into several requests with the '
+             'per-address cache records',
     'c13': '**missed at first**: C13 verified every triple on a fresh object; it now explores verify-call histories on '
            'one Signature object (sub-space reuse)',
 }
